@@ -300,6 +300,11 @@ func (m *mctx) stringMutants(s, v *jsonv.Value, steps []int, path string) {
 		if free && lo >= 2 {
 			// ceil(lo/2) astral characters: >= lo UTF-16 units and bytes, < lo code points
 			m.emit(steps, path, "minLength/astral", v, jsonv.NewString(strings.Repeat("😀", (lo+1)/2)))
+			// one code point short of the bound, in characters of 2, 3 and 4 bytes (a length decided from the byte count
+			// with any fixed bytes-per-character ratio goes wrong for one of them)
+			m.emit(steps, path, "minLength/below-2byte", v, jsonv.NewString(strings.Repeat("é", lo-1)))
+			m.emit(steps, path, "minLength/below-3byte", v, jsonv.NewString(strings.Repeat("€", lo-1)))
+			m.emit(steps, path, "minLength/below-4byte", v, jsonv.NewString(strings.Repeat("😀", lo-1)))
 		}
 	}
 	if hasHi && hi < 4096 {
@@ -308,6 +313,9 @@ func (m *mctx) stringMutants(s, v *jsonv.Value, steps []int, path string) {
 		if free && hi >= 1 && (!hasLo || hi >= lo) {
 			// hi astral characters: valid, but 2*hi UTF-16 units and 4*hi bytes
 			m.emit(steps, path, "maxLength/astral", v, jsonv.NewString(strings.Repeat("𝄞", hi)))
+			m.emit(steps, path, "maxLength/at-2byte", v, jsonv.NewString(strings.Repeat("é", hi)))
+			m.emit(steps, path, "maxLength/at-3byte", v, jsonv.NewString(strings.Repeat("€", hi)))
+			m.emit(steps, path, "maxLength/above-4byte", v, jsonv.NewString(strings.Repeat("😀", hi+1)))
 		}
 	}
 	if hasPat {
